@@ -47,7 +47,7 @@ PROPS = {
     ),
     'C08': dict(
         title='Filter text and filter tree correspond',
-        verus=[('u_filter', [r'^Lexer::parse_path$', r'^Parser::to_cmp_op$', r'^Lexer::greater_or_less$'])],
+        verus=[('u_filter', [r'^Lexer::parse_path$', r'^Parser::to_cmp_op$', r'^Lexer::greater_or_less$', r'^parse_id$', r'^parse_literal$'])],
         kani=[],
         witness=None,
         design_ref='DESIGN.md section 4, C08',
@@ -180,8 +180,8 @@ PROPS = {
                     'every identifier consists of unit bytes only and cannot be mistaken for an exponent by the Zinc number lexer; the unit '
                     'byte class itself is proved equal to the real is_unit_char over all 256 bytes (Kani, complete).'),
         not_decided=('HashMap::get returns the value inserted for an equal key and None otherwise (assumed: this is the whole of the third '
-                     'sentence); lazy_static initialisation; the magnitudes (f64 text, C01); that parse_unit returns exactly the maximal run '
-                     'of unit bytes (only its panic-freedom and termination are proved); the Hayson side looks up the unit member verbatim.'),
+                     'sentence); lazy_static initialisation; the magnitudes (f64 text, C01); that parse_number hands exactly the text returned '
+                     'by parse_unit to get_unit (its body is proved panic-free and terminating only); the Hayson side looks up the unit member verbatim.'),
         technique='contract-based deductive verification: Verus by(compute) lemmas over the mechanically extracted table + Kani complete byte-class harness',
     ),
     'C16': dict(
@@ -204,7 +204,7 @@ PROPS = {
     ),
     'C04': dict(
         title='Zinc text conforms to the Project Haystack grammar in both directions',
-        verus=[('u_zparse', [r'^parse_str_escape$'])],
+        verus=[('u_zparse', [r'^parse_str_escape$', r'^Lexer::read$', r'^parse_literal$', r'^parse_id$', r'^lemma_lit_run_bytes$', r'^parse_unit$', r'^is_unit_char$'])],
         kani=[dict(harness='k_scanner_classes', klass='complete', schema=['u8'], family=None, target='Scanner::is_* byte classes'),
               dict(harness='k_unit_char_class', klass='complete', schema=['u8'], family=None, target='zinc number::is_unit_char'),
               dict(harness='k_u8_classes', klass='complete', schema=['u8'], family=None, target='u8::is_ascii_*')],
@@ -214,8 +214,10 @@ PROPS = {
                     'proves one clause per string escape letter of parse_str_escape (\\b U+0008, \\f U+000C, \\n, \\r, \\t, \\", \\\\, \\$) '
                     'on the real body; Kani proves, over all 256 byte values on the real scanner methods, that every character class the '
                     'reader uses (spaces, newlines, digits, hex digits, id/ref/symbol/unit/zone alphabets, exponent and sign sets) is '
-                    'the byte set written in the contracts.'),
-        not_decided=('The \\uXXXX clause (from_str_radix/from_utf16 have no Verus model); the keyword table of Lexer::read; number spelling '
+                    'the byte set written in the contracts. Verus also proves on the real bodies that a literal / identifier / unit is exactly '
+                    'the maximal run of its class at the head of the input (nothing else consumed), and that a capitalised literal not '
+                    'followed by ( is decoded by the keyword table of the grammar: M R T F N NA NaN INF, anything else is an error.'),
+        not_decided=('The \\uXXXX clause (from_str_radix/from_utf16 have no Verus model); number spelling '
                      '(the string handed to str::parse::<f64>); the whole writer side (to_zinc goes through write!/core::fmt and '
                      'enumerate() loops); Date/Time/DateTime/Coord text; whole-document layout. The unit class tests `> 128`, i.e. excludes '
                      'byte 0x80 that the grammar admits -- harmless: no database unit contains it (C15 lemma).'),
@@ -271,5 +273,23 @@ PROPS = {
         not_decided=('(1) decode-encode-decode = decode: needs C01 for every value in the decoder\'s image; (3) that the lazy iterator '
                      'consumes no further than the first token after a row (would need a token-level ghost trace of the lexer); the reader '
                      'contract for streams longer than the bound (it is the documented behaviour of read_exact on a 1-byte buffer).'),
+    ),
+    'C01': dict(
+        title='Zinc encode -> decode returns the original value',
+        verus=[('u_zparse', [r'^lemma_keyword_roundtrip$', r'^Lexer::read$', r'^parse_literal$', r'^parse_str_escape$', r'^lemma_lit_run_bytes$'])],
+        kani=[dict(harness='k_zinc_keywords', klass='complete', schema=['u8'], family=None, target='to_zinc of Marker/Remove/Na/Bool')],
+        witness='enum:zinc-roundtrip-scalars',
+        design_ref='DESIGN.md section 4, C01',
+        level_text=('Proof for the keyword-valued scalars only (Marker, Remove, NA, true, false; Null on the reader side): Kani proves the real '
+                    'writers emit exactly M, R, NA, T, F; Verus proves on the real Lexer::read that a capitalised literal is read as the maximal '
+                    'run of literal bytes and mapped by the grammar\'s keyword table, and the corollary lemma composes the two into '
+                    'decode(encode(v)) == v. For strings, the reader half is proved: each escape letter the writer can emit (" t r n \\\\ $) '
+                    'decodes to the character the grammar assigns to it.'),
+        not_decided=('The writer half for Str/Uri/Ref/Symbol/XStr (its per-character output goes through write_fmt and a for-loop over chars(): '
+                     'CBMC does not finish even on one concrete character (measured 300 s), and this Verus sees neither byte-string literal '
+                     'contents nor the items of str::chars()); Number, Coord, Date, Time, DateTime (core::fmt / chrono text); List, Dict and '
+                     'Grid layout (enumerate() loops); nesting. Known outside the decided part: a grid with meta is written with the meta after '
+                     'the newline and does not decode; a Uri containing a lone backslash comes back with two.'),
+        technique='contract-based deductive verification: Verus postconditions on the real lexer + Kani complete harness on the real keyword writers',
     ),
 }
